@@ -17,6 +17,16 @@ from .ode import ODE
 reserved_names = {name for name in dir(sp) if not name.startswith("_")}
 
 
+def _gotran_name(var: myokit.Variable) -> str:
+    """Name of a myokit variable in the gotranx model"""
+    if var.binding() == "time":
+        return "time"
+    name = var.uname()
+    if name in reserved_names:
+        name = f"{name}_"
+    return name
+
+
 @overload
 def extract_unit(unit: str) -> str: ...
 
@@ -65,9 +75,7 @@ def extract_nested_variables(
     def f(component, all_subs, component_subs):
         component_subs_ = {}
         for var in component.variables():
-            name = var.uname()
-            if name in reserved_names:
-                name = f"{name}_"
+            name = _gotran_name(var)
 
             component_subs[component.name()][sp.Symbol(var.name())] = sp.Symbol(name)
             all_subs[sp.Symbol(var.qname())] = sp.Symbol(name)
@@ -132,9 +140,7 @@ def myokit_to_gotran(model: myokit.Model, protocol=None) -> ODE:
         intermediates = []
         derivatives = []
         for var in component.variables(deep=True):
-            name = var.uname()
-            if name in reserved_names:
-                name = f"{name}_"
+            name = _gotran_name(var)
 
             if name == "time":
                 # Skip time variable
